@@ -116,8 +116,39 @@ def elaborate_nest(case):
     return c
 
 
+def value_equal_view(case):
+    """case['value_equal_join']: the objects are of a class whose __eq__ compares the attributes (a, b) - different objects may be EQUAL -
+    and the condition compares objects (a bare variable against an object-valued attribute).  The models compare objects by identity,
+    so in THEIR view of the case both operands of such a comparison are read through a hidden field `rep` that holds the first heap
+    object with the same (a, b): x == y.peer  becomes  x.rep == y.peer.rep.  Rows still list the objects themselves."""
+    if not case.get('value_equal_join'):
+        return case
+    REP, PEER = len(FIELDS), FIELDS.index('peer')
+    c = dict(case)
+    c['heap'] = []
+    for o in case['heap']:
+        rep = min(j for j, q in enumerate(case['heap']) if (q[0], q[1]) == (o[0], o[1]))
+        c['heap'].append(list(o) + [None] * (REP - len(o)) + [{'o': rep}])
+
+    def is_obj(t):
+        return t[0] == 'var' or (t[0] == 'map' and t[1] == ['f', PEER])
+
+    def rc(cd):
+        if cd is None:
+            return None
+        if cd[0] == 'cmp' and cd[1] in ('==', '!=') and is_obj(cd[2]) and is_obj(cd[3]):
+            return ['cmp', cd[1], ['map', ['f', REP], cd[2]], ['map', ['f', REP], cd[3]]]
+        if cd[0] in ('and', 'or'):
+            return [cd[0], rc(cd[1]), rc(cd[2])] + cd[3:]
+        if cd[0] == 'not':
+            return ['not', rc(cd[1])] + cd[2:]
+        return cd
+    c['cond'] = rc(case['cond'])
+    return c
+
+
 def coq_qcase(case):
-    case = elaborate_nest(case)
+    case = value_equal_view(elaborate_nest(case))
     heap = "[" + "; ".join("[" + "; ".join(coq_val(v) for v in o) + "]" for o in case['heap']) + "]"
     doms = "[" + "; ".join(f"({k}, [{'; '.join(coq_val({'o': i}) for i in d)}])" for k, d in case['doms']) + "]"
     def cb(b):
